@@ -194,7 +194,18 @@ def check_robust(R, variant, yy, nodata, llas, p, ykind):
         li = float(lopt_i[0])
         if li != lopt and abs(li - lopt) <= 1e-12 * lopt:
             R.count("cvi_lopt_last_ulp")
-        if abs(li - lopt) > 1e-12 * lopt or (li == lopt and not np.array_equal(out_i, band)):
+        tie_only = False
+        if li == lopt and not np.array_equal(out_i, band) and tap.ret and tap.ret[0].get("robust_weights") is not None:
+            # same lambda, same weights: the two worlds may still round an exact .5 differently (curve through two
+            # weighted cells of integer data sits on ties); tolerated only at cells within 1e-6 of a rounding tie
+            rw_t = tap.ret[0]["robust_weights"]
+            zt = S.ws2d_solver(ycl, li, rw_t) if variant == "ws2dwcv" else W.asym(ycl, li, rw_t, p, S.ws2d_solver)["z"]
+            dd = np.abs(out_i.astype(np.int64) - band.astype(np.int64))
+            fr = np.abs(zt - np.floor(zt) - 0.5)
+            tie_only = bool(np.all(dd <= 1) and np.all(fr[dd > 0] <= 1e-6))
+            if tie_only:
+                R.count("cvi_rounding_ties")
+        if abs(li - lopt) > 1e-12 * lopt or (li == lopt and not np.array_equal(out_i, band) and not tie_only):
             scale = max(1.0, float(np.max(np.abs(ycl))))
             noise = (1e-9 * scale) ** 2 * w.sum()
             tapped_best = [float(loc["gcv_temp"][0]) for _, loc in tap.events if loc.get("gcv_temp") is not None]
